@@ -1254,3 +1254,132 @@ func ruleG58(r *Run) {
 		r.Undec("timeout plugin", 0, "no handler with context.WithTimeout and a call of next found")
 	}
 }
+
+// ---------------------------------------------------------------------------------------------------
+// P22 one malformed element does not cost the rest of a wire batch
+
+func init() {
+	register("P22", "where the reverse plugin walks a batch that came from the peer (a range over a slice of the wire tuple types returnValue / call - named types over [3]interface{} or []interface{}), the loop body neither asserts an element of the tuple in the single-value form nor indexes it unchecked, directly or through a method of the tuple type that does (Index() is r[0].(int)): the panic is caught by the recover of Service.Process, but it ends the LOOP - the answers behind the malformed tuple are never delivered and those callers run into their time-outs (C09: each caller receives the response to its own request)", 1, ruleP22)
+}
+
+func ruleP22(r *Run) {
+	p := r.P
+	pkg := p.Pkg("rpc/plugins/reverse")
+	if pkg == nil {
+		r.Undec("package rpc/plugins/reverse", 0, "not found")
+		return
+	}
+	info := pkg.TypesInfo
+	isTuple := func(t types.Type) bool {
+		nt, ok := t.(*types.Named)
+		if !ok || nt.Obj().Pkg() != pkg.Types {
+			return false
+		}
+		var et types.Type
+		switch u := nt.Underlying().(type) {
+		case *types.Slice:
+			et = u.Elem()
+		case *types.Array:
+			et = u.Elem()
+		default:
+			return false
+		}
+		it, ok := et.Underlying().(*types.Interface)
+		return ok && it.Empty()
+	}
+	// methods of tuple types that assert / index without a check
+	unsafeMethod := map[*types.Func]string{}
+	for _, file := range pkg.Syntax {
+		for _, d := range file.Decls {
+			fd, ok := d.(*ast.FuncDecl)
+			if !ok || fd.Body == nil || fd.Recv == nil || len(fd.Recv.List) != 1 || len(fd.Recv.List[0].Names) != 1 {
+				continue
+			}
+			f, _ := info.Defs[fd.Name].(*types.Func)
+			recv := info.Defs[fd.Recv.List[0].Names[0]]
+			if f == nil || recv == nil || !isTuple(recv.Type()) {
+				continue
+			}
+			parents := parentMap(fd.Body)
+			ast.Inspect(fd.Body, func(m ast.Node) bool {
+				if ta, ok := m.(*ast.TypeAssertExpr); ok && ta.Type != nil {
+					if ix, ok := ast.Unparen(ta.X).(*ast.IndexExpr); ok && identObj(info, ix.X) == recv {
+						commaOK := false
+						switch par := parents[ta].(type) {
+						case *ast.AssignStmt:
+							commaOK = len(par.Lhs) == 2 && len(par.Rhs) == 1
+						case *ast.ValueSpec:
+							commaOK = len(par.Names) == 2 && len(par.Values) == 1
+						}
+						if !commaOK {
+							unsafeMethod[f] = types.ExprString(ta)
+						}
+					}
+				}
+				return true
+			})
+		}
+	}
+	n := 0
+	for _, file := range pkg.Syntax {
+		for _, d := range file.Decls {
+			fd, ok := d.(*ast.FuncDecl)
+			if !ok || fd.Body == nil {
+				continue
+			}
+			parents := parentMap(fd.Body)
+			ast.Inspect(fd.Body, func(m ast.Node) bool {
+				rs, ok := m.(*ast.RangeStmt)
+				if !ok || rs.Value == nil {
+					return true
+				}
+				tv, ok := info.Types[rs.X]
+				if !ok || tv.Type == nil {
+					return true
+				}
+				sl, ok := tv.Type.Underlying().(*types.Slice)
+				if !ok || !isTuple(sl.Elem()) {
+					return true
+				}
+				elem := identObj(info, rs.Value)
+				if elem == nil {
+					return true
+				}
+				n++
+				key := fmt.Sprintf("batch walked in %s #%d", p.DeclName(fd), n)
+				bad := ""
+				ast.Inspect(rs.Body, func(q ast.Node) bool {
+					switch x := q.(type) {
+					case *ast.FuncLit:
+						return false // a goroutine of its own per element has its own fate
+					case *ast.CallExpr:
+						if sel, ok := ast.Unparen(x.Fun).(*ast.SelectorExpr); ok && identObj(info, sel.X) == elem {
+							if f := Callee(info, x); f != nil && unsafeMethod[f] != "" {
+								bad = elem.Name() + "." + f.Name() + "() does `" + unsafeMethod[f] + "`"
+							}
+						}
+					case *ast.TypeAssertExpr:
+						if x.Type == nil {
+							return true
+						}
+						if ix, ok := ast.Unparen(x.X).(*ast.IndexExpr); ok && identObj(info, ix.X) == elem {
+							commaOK := false
+							if par, ok := parents[x].(*ast.AssignStmt); ok {
+								commaOK = len(par.Lhs) == 2 && len(par.Rhs) == 1
+							}
+							if !commaOK {
+								bad = "`" + types.ExprString(x) + "`"
+							}
+						}
+					}
+					return true
+				})
+				r.Check(bad == "", key, rs.Pos(), "no unchecked assertion on a tuple inside the loop", "inside the loop over the batch "+bad+": a tuple of another shape panics, the loop ends there and the elements behind it are dropped")
+				return true
+			})
+		}
+	}
+	if n == 0 {
+		r.Undec("wire batches in rpc/plugins/reverse", 0, "no range over a slice of tuples found")
+	}
+}
